@@ -312,6 +312,12 @@ impl<K: SimKey, F: LruFlavor> Subject for LruSubj<K, F> {
         }
     }
 
+    fn iter_probe(&self, _list: usize) -> Option<(Vec<(u32, u64)>, Vec<(u32, u64)>, usize)> {
+        let c = self.c.as_ref()?;
+        let f: Vec<(u32, u64)> = lib!(c.iter()).map(|(k, v): (&K, &TV)| (k.raw().0, v.val)).collect();
+        let b: Vec<(u32, u64)> = lib!(c.iter()).rev().map(|(k, v): (&K, &TV)| (k.raw().0, v.val)).collect();
+        Some((f, b, c.len()))
+    }
     fn fork(&self) -> Option<Box<dyn Subject>> {
         let c = self.c.as_ref()?;
         let before = crate::world::cb_log_count();
